@@ -372,7 +372,7 @@ class Check:
             "known_findings_seen": sorted(knowns),
             "known_findings_listed": sorted(known_keys),
             "not_encoded": sorted({x for u in self.units for x in u["not_encoded"]}),
-            "notes": [n for u in self.units for n in u["notes"]][:40],
+            "notes": [n for u in self.units for n in u["notes"]][:200],
             "harness_errors": ["%s: %s" % e for e in errors][:20],
             "cvc5_cross_check": {k: sum(u.get(k, 0) for u in self.units) for k in
                                  ("cvc5_checked", "cvc5_unsat", "cvc5_sat", "cvc5_unknown", "cvc5_no_answer")},
